@@ -9,3 +9,6 @@ package parser
 //@ func (*Parser).ParseFile
 //@   mode assumed defer+recover
 //@   assigns *
+
+// operand widths: read from the composite literal on every run
+//@ table OpcodeOperands
